@@ -4,6 +4,8 @@
      TPIds    ids[[8]]                 draws of GetGREASEID / GREASETransportParameter.ID
      QVers    vs[[4]]                  draws of VersionInformation.GetGREASEVersion
      TPBody   kinds, avail, body       TransportParameters.Marshal
+     TPIsGrease ids, res               GREASETransportParameter.IsGREASEID(ids[i]) = res[i]
+     TPOverride ins, ids, bodies       GREASETransportParameter{IdOverride: ins[i]}: ID() and the marshaled parameter
      Group    grp, mode, spec          start of a group of connections made from one spec (dumped before its first use);
                                        mode: parrot / fingerprint (a spec of its own per connection), reuse-id / reuse-fp /
                                        reuse-custom (ONE spec object applied to all connections of the group), twice /
@@ -25,6 +27,9 @@ Explained(ev) ==
     [] ev.ev = "TPIds"  -> \A i \in DOMAIN ev.ids : IsGreaseTPId(ev.ids[i]) /\ IsVarint62(ev.ids[i])
     [] ev.ev = "QVers"  -> \A i \in DOMAIN ev.vs : IsGreaseQuicVersion(ev.vs[i])
     [] ev.ev = "TPBody" -> TPBodyOK(ev.kinds, ev.avail, ev.body)
+    [] ev.ev = "TPIsGrease" -> Len(ev.res) = Len(ev.ids) /\ \A i \in DOMAIN ev.ids : ev.res[i] = IsGreaseTPId(ev.ids[i])
+    [] ev.ev = "TPOverride" -> Len(ev.ids) = Len(ev.ins) /\ Len(ev.bodies) = Len(ev.ins)
+                               /\ \A i \in DOMAIN ev.ins : OverrideOK(ev.ins[i], ev.ids[i], ev.bodies[i])
     [] ev.ev = "Group"  -> ev.fperr = ""
     [] ev.ev = "Hello"  -> ev.sent /\ HelloGreaseOK(ev.raw, Spec(ev.g))
     [] ev.ev = "EndGroup" -> Trace[ev.g].mode = "constrand" \/ FreshOK(seen, SpecGrease(Spec(ev.g)))
@@ -43,6 +48,8 @@ Why(ev) ==
     [] ev.ev = "TPIds"  -> <<"tp-id-not-grease", Cardinality({k \in DOMAIN ev.ids : ~(IsGreaseTPId(ev.ids[k]) /\ IsVarint62(ev.ids[k]))}), Len(ev.ids)>>
     [] ev.ev = "QVers"  -> <<"quic-version-not-grease", Cardinality({k \in DOMAIN ev.vs : ~IsGreaseQuicVersion(ev.vs[k])}), Len(ev.vs)>>
     [] ev.ev = "TPBody" -> <<"tp-body", WhyTPBody(ev.kinds, ev.avail, ev.body)>>
+    [] ev.ev = "TPIsGrease" -> <<"tp-isgreaseid-disagrees", {ev.ids[i] : i \in {k \in DOMAIN ev.ids : ev.res[k] # IsGreaseTPId(ev.ids[k])}}>>
+    [] ev.ev = "TPOverride" -> <<"tp-override-id-not-grease", {ev.ins[i] : i \in {k \in DOMAIN ev.ins : ~OverrideOK(ev.ins[k], ev.ids[k], ev.bodies[k])}}>>
     [] ev.ev = "Group"  -> <<"fingerprint-failed", ev.grp>>
     [] ev.ev = "Hello"  -> <<"hello", Trace[ev.g].grp, IF ev.sent THEN WhyHelloGrease(ev.raw, Spec(ev.g)) ELSE "nothing-sent">>
     [] ev.ev = "EndGroup" -> <<"not-fresh", Trace[ev.g].grp, [k \in Kinds |-> Cardinality(seen[k])]>>
